@@ -53,5 +53,30 @@ def run(prog):
             out.append(inst("EE", "%s:returns-enumerated-sum" % fn.npath, VIOLATION if errs2 else OK, fn, None,
                             "; ".join(errs2) if errs2 else "every return value is the accumulated sum"))
     if n < 1:
+        # pipeline form: AssignmentIter::new(n).filter(|a| eval(a)).map(weight).fold(zero, +) / .sum()
+        from . import nc
+        from .base import strip
+        for fn in prog.lib_fns:
+            if "::tests::" in fn.npath or fn.name.startswith("test_") or fn.terms.ret is None:
+                continue
+            for x in mir.subterms(fn.terms.ret):
+                if not (x[0] == "call" and x[1].name in ("fold", "sum", "count", "reduce", "product") and x[2]):
+                    continue
+                chain, t = [], strip(x[2][0])
+                while isinstance(t, tuple) and t and t[0] == "call" and t[2] and not (t[1].name == "new" and "AssignmentIter" in t[1].key()):
+                    chain.append(t[1].name)
+                    t = strip(t[2][0])
+                if not (isinstance(t, tuple) and t and t[0] == "call" and t[1].name == "new" and "AssignmentIter" in t[1].key()):
+                    continue
+                n += 1
+                drop = [c for c in chain if c in nc.DROPPING and c != "filter"]
+                errs = ["the enumeration of assignments passes through `%s`: assignments are skipped" % drop[0]] if drop else []
+                out.append(inst("EE", "%s:loop-exit" % fn.npath, VIOLATION if errs else OK, fn, None,
+                                "; ".join(errs) if errs else "the whole AssignmentIter is consumed (%s)" % ", ".join(reversed(chain))))
+                is_sum = x[1].name == "sum" or (x[1].name == "fold" and len(x[2]) == 3)
+                out.append(inst("EE", "%s:returns-enumerated-sum" % fn.npath, OK if is_sum and strip(fn.terms.ret) == x else UNDECIDED, fn, None,
+                                "the return value is the fold over the enumeration" if is_sum and strip(fn.terms.ret) == x else
+                                "the reduction of the enumeration is not the returned value"))
+    if n < 1:
         raise CheckerError("EE: no loop over AssignmentIter found (expected Cnf::wmc)")
     return out
